@@ -42,11 +42,11 @@ CHECKS.update({
  'C14': A("The real EstimationModel / Parameters code with symbolic standard deviations whose signs decide the enable bits (bias, walk, noise fork on every path; scale-misalignment masks enumerated): dimensions of states/P/F/G/H/J/q/v mutually consistent, P = diag(sd^2), q and G map enabled walks to their bias states, state names = the simulator's parameter-table columns, output_matrix(r) x = (T-I) r + b, estimates accumulate, correct_increments undoes the noise-free simulated error for irregular stamps (both DataFrame and Series forms), coefficients of the random draws = noise/sqrt(dt), noise sqrt(dt), walk sqrt(dt); walk without bias raises.", "DESIGN.md 5/C14"),
  'C04': A("Bivariate jets (error scale eps, time step t) through two runs of the real kernel step, the real system_matrices and propagate_errors: for every unit direction of the 9 (7) error states and 6 sensor errors and each of 15 state components, the eps^1 t^1 coefficient of correct_pva(INS(t), eps x(t)) - truth(t) is identically zero for the velocity/gyro/accel columns and the position/attitude rows of the attitude columns, equals exactly (Omega_n x phi) x V in the velocity rows of the attitude columns, and vanishes at V = 0 for the position columns except d(gravity)/d(latitude) in [DV3, DR1] which is bounded; no-altitude mode under vertical equilibrium of the specific force; propagate_errors = one trapezoidal step of that model. Velocity-proportional residuals of the position columns are reported, not decided.", "DESIGN.md 5/C04"),
  'C01': A("Claimed as local consistency: the real compute_increments_from_imu (rate and increment sensors, samples of linear-in-time signals) followed by one step of the real kernel from a fully symbolic state, with the sampling interval a formal parameter: order 0 reproduces the state, and the t^1 coefficients satisfy Newton's law in the Earth-fixed frame - position kinematics, velocity dynamics with specific force, gravity and the Coriolis term, attitude kinematics with Earth rate - written with the library's geodesy functions and symbolic ellipsoid constants. Consistency + stability => convergence is cited (Dahlquist/Lax); finite-interval error ratios are outside.", "DESIGN.md 5/C01"),
- 'C03': A("generate_imu with scipy's splines idealised as exact interpolants of an arbitrary smooth motion (time-jets per row), decomposed at the scipy boundary: position nodes = inertial position R_z(W t) lla_to_ecef(lla), gravitation array, attitude nodes = R_z(W t) C_en C_nb, readings = C_ib^T (inertial acceleration - gravitation) and vee(C_ib^T C_ib'), returned velocity, Hermite node derivatives, a rotating-frame kinematics glue lemma over a free curve, a body at rest senses Earth rate and the reaction to gravity, and the closed-form increment integrals of _compute_increment_readings (gyro through dt^4, accel through dt^3). Position-only and position+velocity forms, rate sensors; the initial-position form and the increment-type wiring of spline coefficients are stated as not covered.", "DESIGN.md 5/C03"),
+ 'C03': A("generate_imu with scipy's splines idealised as exact interpolants of an arbitrary smooth motion (time-jets per row), decomposed at the scipy boundary: position nodes = inertial position R_z(W t) lla_to_ecef(lla), gravitation array, attitude nodes = R_z(W t) C_en C_nb, readings = C_ib^T (inertial acceleration - gravitation) and vee(C_ib^T C_ib'), returned velocity, Hermite node derivatives, a rotating-frame kinematics glue lemma over a free curve, a body at rest senses Earth rate and the reaction to gravity, the closed-form increment integrals of _compute_increment_readings (gyro through dt^4, accel through dt^3), and the wiring of the increment-type branch (spline polynomial coefficients as free symbols of the local model, start-of-interval body frame, first sample duplicated). Position-only and position+velocity forms; the initial-position form is stated as not covered.", "DESIGN.md 5/C03"),
  'C11': ('other', "Claimed as wiring + dataflow. Wiring (engine A): the real _compute_error_propagation_matrices, _initialize_covariance and _compute_feedforward_result with real EstimationModel objects on several enable-mask pairs and symbolic values: the joint F and Q handed to compute_process_matrices equal [[F_ii, F_ig H_g, F_ia H_a],[0,F_g,0],[0,0,F_a]] and the sum over physical noise sources (independent of stacking order), P0 = blockdiag(T_int diag(sd^2) T_int^T, P_gyro, P_accel), output compensation = -T_out x to first order, sd^2 = diag(T_out P T_out^T), sensor tables = state sub-vectors. Dataflow (engine B): on every explored schedule of the real feedforward loop the stored x and P terms equal the textbook recursion rebuilt from the schedule (x <- Phi x, P <- Phi P Phi^T + Qd, correct with [H|0|0] in order, dynamics at the averaged nominal state, measurement model at the interpolated computed state). The recursion-equals-batch theorem is cited.", MIX_NOTE, "engine A (symbolic execution on z3 reals, negated identities) + engine B (symbolic execution of the real loop over symbolic time stamps, term comparison)", "DESIGN.md 5/C11"),
- 'C12': ('model_checking', "Three of the four sentences: (a) transparency - on every explored path of the real feedback loop with all measurement stamps outside the span (or None / []) there is no predict/correct/set_pva/update, integrate calls partition the increments and the rows handed to the integrator are the original ones; bit-exactness of the identity correction by QF_FP lemmas; with C02 bit-identical to one integrate call; replayed bit for bit on the compiled filter. (c) repeatability - model objects enter with symbolic garbage in their estimate state and no logged token depends on it. (b') one-step feedback consistency of correct_increments after update_estimates(eps x) on real EstimationModel objects (engine A). The whole-run first-order equivalence with the feedforward filter is outside.", MIX_NOTE, B_TECH + " + QF_FP lemmas + engine A for the sensor feedback", "DESIGN.md 5/C12"),
+ 'C12': ('model_checking', "Three of the four sentences: (a) transparency - on every explored path of the real feedback loop with all measurement stamps outside the span (or None / []) there is no predict/correct/set_pva/update, integrate calls partition the increments and the rows handed to the integrator are the original ones; bit-exactness of the identity correction by QF_FP lemmas; with C02 bit-identical to one integrate call; replayed bit for bit on the compiled filter. (c) repeatability - model objects enter with symbolic garbage in their estimate state and no logged token depends on it. Dataflow of the feedback form on schedules with several epochs per IMU interval: the first correction of every epoch starts from the zero error state, x and P chain, the written-back state is correct_pva(latest state, x[ins block]), P is propagated as Phi P Phi^T + Qd. (b') one-step feedback consistency of correct_increments after update_estimates(eps x) on real EstimationModel objects (engine A). The whole-run first-order equivalence with the feedforward filter is outside.", MIX_NOTE, B_TECH + " + QF_FP lemmas + engine A for the sensor feedback", "DESIGN.md 5/C12"),
  'C13': ('model_checking', "Integrator: invariant 'stored vertical velocity of the latest state is the literal 0.0' over an arbitrary valid state of the real 2D Integrator and kernel source (symbolic sizes), established by the constructor and by set_pva for arbitrary supplied VD; every produced row has VD = 0.0 and its altitude term is FP-equal to the latest supplied altitude (QF_FP query on the kernel's own term); explicit histories. Feedback loop (engine B): one 2D integrator, every written-back state is the 2D correction of the latest state. FP lemmas for exactly-zero sd and the 2D correction; engine A: T_out 2D rows identically zero, 2D correct_pva returns alt/VD unchanged, Position / NedVelocity return two rows.", MIX_NOTE, "symbolic execution of the real Integrator/kernel/loop over symbolic sizes and stamps + z3 QF_FP queries on kernel terms + engine A identities", "DESIGN.md 5/C13"),
- 'C18': A("to_180_range for every real angle (remainder as a real in [0,360), path fork on the wrap) in scalar / array / Series / DataFrame forms; Series differences in the regimes no-wrap / heading wraps up / down / roll wraps: antisymmetry, zero self-difference, range and congruence of the angle columns, down and velocity differences; recovery of a perturbation to first order; DataFrame branch on five enumerated concrete time layouts with symbolic values: common index, antisymmetry across the operand swap, zero difference against itself and against a sub-sampling, resampling reproduces original rows, drops outside times, keeps column order, linear midpoint. Layout dimension sampled, not decided. One known finding (equal-rate offset tables).", "DESIGN.md 5/C18"),
+ 'C18': A("to_180_range for every real angle (remainder as a real in [0,360), path fork on the wrap) in scalar / array / Series / DataFrame forms; Series differences in the regimes no-wrap / heading wraps up / down / roll wraps: antisymmetry, zero self-difference, range and congruence of the angle columns, down and velocity differences; recovery of a perturbation to first order and, for a finite pure east / pure down displacement, exactly for every longitude including across the antimeridian; DataFrame branch on five enumerated concrete time layouts with symbolic values: common index, antisymmetry across the operand swap, zero difference against itself and against a sub-sampling, resampling reproduces original rows, drops outside times, keeps column order, linear midpoint. Layout dimension sampled, not decided. One known finding (equal-rate offset tables).", "DESIGN.md 5/C18"),
 })
 
 NA = {
